@@ -663,4 +663,93 @@ theorem patchExprOkB_sound {ir : IR} {p : Patch} (h : ir.patchExprOkB p = true) 
   · intro x hx ke hke
     exact exprInB_sound (List.all_eq_true.mp (List.all_eq_true.mp h.2 x hx) ke hke)
 
+/-! ### a whole `delete`: the expressions stay on their bytes -/
+
+def IR.exprsOf (ir : IR) (i : Nat) : Option (List (Nat × SymExpr)) := (ir.interval? i).map (·.symExprs)
+
+theorem exprsOf_congr {a b : IR} (h : b.intervals = a.intervals) (j : Nat) : b.exprsOf j = a.exprsOf j := by
+  unfold IR.exprsOf IR.interval?; rw [h]
+
+/-- expressions after an operation that keeps the intervals, then an edit, then another frame step -/
+theorem exprs_after_edit {ir0 ir1 ir2 : IR} {i off len : Nat} {content st : List Nat} {iv : Interval}
+    (h0 : ir1.intervals = ir0.intervals) (hiv : ir0.interval? i = some iv)
+    (h2 : ir2.intervals = (ir1.editInterval i off len content st).intervals) :
+    ir2.exprsOf i = some (shiftKeys off len content.length iv.symExprs) ∧ ∀ j, j ≠ i → ir2.exprsOf j = ir0.exprsOf j := by
+  have hiv1 : ir1.interval? i = some iv := by unfold IR.interval? at *; rw [h0]; exact hiv
+  constructor
+  · rw [exprsOf_congr h2]
+    exact editInterval_symExprs ir1 i off len content st iv hiv1
+  · intro j hj
+    rw [exprsOf_congr h2]
+    unfold IR.exprsOf
+    rw [editInterval_interval?_other _ _ _ _ _ _ j hj]
+    exact exprsOf_congr h0 j
+
+theorem shiftKeys_nothing {β} (off : Nat) (m : List (Nat × β)) : shiftKeys off 0 0 m = m := by
+  unfold shiftKeys
+  have hf : (fun (x : Nat × β) => match x with
+      | (k, v) => if k < off then some (k, v) else if k ≥ off + 0 then some (k + 0 - 0, v) else none) = some := by
+    funext x
+    obtain ⟨k, v⟩ := x
+    simp only []
+    by_cases hk : k < off
+    · simp [hk]
+    · have : k ≥ off + 0 := by omega
+      simp [hk, this]
+  rw [hf]
+  exact List.filterMap_some
+
+/-- **a whole `delete` keeps every symbolic expression on its byte**: in the block's byte interval
+the expressions in front of the deleted range keep their offset, those behind it move down by the
+deleted length, those inside it are gone; no other interval changes -/
+theorem delete_symExprs {ir ir' : IR} {b off len : Nat} {px : Bool} {r : Option Nat} {blk : Block} {i : Nat}
+    {iv : Interval}
+    (h : ir.delete b off len px = .ok (ir', r))
+    (hb : ir.block? b = some blk) (hbi : blk.bi = some i) (hiv : ir.interval? i = some iv) :
+    ir'.exprsOf i = some (shiftKeys (blk.off + off) len 0 iv.symExprs) ∧
+    ∀ j, j ≠ i → ir'.exprsOf j = ir.exprsOf j := by
+  unfold IR.delete at h
+  rw [hb] at h
+  simp only [] at h
+  split at h
+  · cases h
+  · rw [hbi] at h
+    simp only [] at h
+    split at h
+    · -- nothing to delete
+      rename_i hz
+      injection h with h; injection h with h1 h2; subst h1
+      have : len = 0 := by simp at hz; exact hz.1
+      subst this
+      refine ⟨?_, fun j _ => rfl⟩
+      unfold IR.exprsOf; rw [hiv, shiftKeys_nothing]; rfl
+    · split at h
+      · split at h
+        · cases h
+        · rename_i ir1 e1 a1 hs1
+          split at h
+          · cases h
+          · rename_i ir2 e2 a2 hs2
+            split at h
+            · cases h
+            · rename_i ir3 d3 hr3
+              split at h
+              · cases h
+              · rename_i ir5 last hc
+                injection h with h; injection h with h1 h2; subst h1
+                apply exprs_after_edit (ir1 := ir3) (content := []) _ hiv (cleanup_intervals hc)
+                rw [removeBlock_intervals hr3, connectEmptyTail_intervals, splitBlock_intervals hs2,
+                  splitBlock_intervals hs1]
+      · split at h
+        · cases h
+        · rename_i ir1 deleted hr1
+          split at h
+          · split at h
+            · cases h
+            · rename_i ir3 d3 hr3
+              injection h with h; injection h with h1 h2; subst h1
+              exact exprs_after_edit (content := []) (removeBlock_intervals hr1) hiv (removeBlock_intervals hr3)
+          · injection h with h; injection h with h1 h2; subst h1
+            exact exprs_after_edit (content := []) (removeBlock_intervals hr1) hiv rfl
+
 end GtirbVerif.IR
